@@ -23,11 +23,12 @@ WEIGHTS = {"sample": 0, "str": 0, "to_abstract_repr": 0, "build_copy": 0, "queri
            "target_index": 1.5, "phase_shift_index": 1.0, "set_magnetic_field": 0.05, "config_slm_mask": 0.5}
 
 
-def concrete_program(ctx, rng, dev, reg, nmax=26, weights=None, styles=False, maps_by_traps=False):
+def concrete_program(ctx, rng, dev, reg, nmax=26, weights=None, styles=False, maps_by_traps=False, motifs=None):
     """Run the online generator directly; keep only the successful mutating calls."""
     r = prog.Runner(ctx, dev, reg, [])
     g = gen.ProgGen(rng, dev, reg, r.chspecs, weights=weights or WEIGHTS, styles=styles)
     g.maps_by_traps = maps_by_traps
+    g.motifs.update(motifs or {})
     ops = []
     for _ in range(rng.randint(5, nmax)):
         op = g.next_op()
